@@ -228,6 +228,8 @@ pub fn run_op(c: &mut Case, idx: usize, toks: &[&str]) -> String {
             Some(e) => format!("ok:optstr:{}", hex(e.as_bytes())),
         }),
         ["isroot", p] => on!(p, |p: VfsPath| format!("ok:{}", bool_s(&p.is_root()))),
+        // VfsPath == VfsPath (C06: the same filesystem instance and the same canonical string)
+        ["eq", p, q] => on2!(p, q, |p: VfsPath, q: VfsPath| format!("ok:{}", bool_s(&(p == q)))),
         ["exists", p] => on!(p, |p: VfsPath| res_s(&p.exists(), bool_s)),
         ["metadata", p] => on!(p, |p: VfsPath| res_s(&p.metadata(), |m| meta_s(m, &set))),
         ["isfile", p] => on!(p, |p: VfsPath| res_s(&p.is_file(), bool_s)),
@@ -529,6 +531,11 @@ pub fn config_line(cur: &mut Case, toks: &[&str]) -> bool {
             let b = cur.bases[i.parse::<usize>().unwrap()].take().expect("base used twice");
             let r = cur.wrap(b);
             cur.roots.push(r);
+        }
+        // a user filesystem without state (a zero-sized type), handed to VfsPath::new as it is: NOT wrapped
+        ["fs", "unit", i] => {
+            let _ = cur.bases[i.parse::<usize>().unwrap()].take();
+            cur.roots.push(VfsPath::new(wrappers::UnitFS));
         }
         ["fs", "alt", j, p] => {
             let root = cur.path_of(j.parse().unwrap(), p);
